@@ -433,7 +433,11 @@ def par_values(m: GModel, overrides, t, y):
             base = TRIGGERS[data["fun"]](np.asarray(y[off:off + len(m.vars[tv][1])]))
         elif kind == "trigger_p":
             src = m.pars[data["trigger_par"]]
-            base = TRIGGERS[data["fun"]](np.array(overrides.get(src[0], src[2]["value"]), dtype=float))
+            if src[1] in ("trigger", "trigger_p") and data["trigger_par"] < q:
+                src_val = out[data["trigger_par"]]          # a chain: the source is itself re-evaluated at call time
+            else:
+                src_val = np.array(overrides.get(src[0], src[2]["value"]), dtype=float)
+            base = TRIGGERS[data["fun"]](src_val)
         out.append(np.asarray(base, dtype=float))
     return out
 
@@ -580,6 +584,13 @@ def corpus():
     C.append(GModel("DAE", [("x", [0.7, 1.3, 0.2], None)],
                     [("G", "ts_index", dict(value=[1.0, 0.5, 2.0], times=[0.0, 1.0, 2.0], series=[0.5, 1.5, 3.0], index=[1]))],
                     [("f0", "ode", ("sub", ("par", 0, ("w",)), ("mul", ("var", 0, ("w",)), ("par", 0, ("i", 0)))), (0, ("w",)))]))
+    # chained triggerable parameters whose names sort against the dependence: zB = affine(x) is triggered by the variable, aA = square(zB)
+    # by the parameter zB ('aA' < 'zB'); at call time aA has to follow the zB of that call, not the stored one
+    xb = np.array([1.0, 2.0])
+    C.append(GModel("AE", [("x", [1.0, 2.0], None)],
+                    [("zB", "trigger", dict(value=[float(v) for v in trig_affine(xb)], trigger_var=0, fun="trig_affine")),
+                     ("aA", "trigger_p", dict(value=[float(v) for v in trig_square(trig_affine(xb))], trigger_par=0, fun="trig_square"))],
+                    [("e0", "alg", ("sub", ("mul", ("var", 0, ("w",)), ("par", 0, ("w",))), ("par", 1, ("w",))), None)]))
     # numeric constants that need all 17 significant digits (0.1 + 0.2, 1/3) as thresholds of piecewise functions, evaluated exactly on
     # the threshold and one ulp / the 15-digit rounding away from it: the generated code has to carry the constant the user wrote
     c17, c16 = 0.1 + 0.2, 1.0 / 3.0
